@@ -207,7 +207,7 @@ def hist_part(ctx):
         raise vlib.MachineryError("coverage guard: operations never generated: %s (expected failures: %d of %d)" %
                                   (missing, summary["expected_failures"], summary["edges"]))
     # seeded simulation beyond the exhaustive bound
-    n = 150 if ctx.quick else 1500
+    n = 100 if ctx.quick else 1500
     s = ctx.tlc("C20Hist", "C20HistSim.cfg", workers=1, timeout=1500, heap="4g", simulate="num=%d" % n, depth=8,
                 extra=["-seed", str(ctx.seed)])
     ssum, sdivs = replay_edges(ctx, s, "sim")
@@ -367,7 +367,7 @@ def range_cases(ctx, rnd):
                         both = syn == "p2" or kind in ("string", "enum", "bytes")
                         core = own and both and pos in ("field", "list_append", "mapval_set", "mapkey_set", "ctor")
                         wrong = (not own) and both and pos in ("field", "list_append", "mapval_set", "mapkey_set", "lookup_in")
-                        if not (core or wrong or src == "None" or rnd.random() < 0.04):
+                        if not (core or wrong or src == "None" or rnd.random() < 0.02):
                             continue
                     elif not own and pos in ("set_field", "ctor_dict", "list_pair", "mapval_assign") and rnd.random() < 0.5:
                         continue
